@@ -206,6 +206,11 @@ func Max[T constraints.Numeric]() func(Observable[T]) Observable[T] {
 					},
 					destination.ErrorWithContext,
 					func(ctx context.Context) {
+						if first {
+							// No value has been received: mAx holds no context yet.
+							mAx.A = ctx
+						}
+
 						destination.NextWithContext(mAx.A, mAx.B)
 						destination.CompleteWithContext(ctx)
 					},
